@@ -36,8 +36,14 @@ def check_trace(ctx, scn, tag, mark, what, extra_ok=(), readonly=False, key=None
             is_abs, comps = path_components(pc)
             inside = is_abs and len(comps) >= len(cache_comps) and all(a.key() == b.key() for a, b in zip(comps, cache_comps))
             if not inside:
+                nat, shim = native_outside or {"kind": "tree_eq_outside_untouched"}, None
+                if pc.is_concrete() and pc.concrete().startswith((ROOT + "/systmp/").encode()) and rec.get("done") and step is not None:
+                    # a file in the system temp directory: usually gone again when the call returns, so the process is
+                    # killed right after that action and the directory inspected
+                    nat = {"kind": "tree_no_systmp"}
+                    shim = {"mode": "crash", "step": step, "effects": rec["effects_before"] + 1, "torn": None}
                 ctx.expect(False, tag + ":outside:" + rec["kind"], "%s touched a path outside the cache directory: %r" % (what, pc),
-                           native=native_outside or {"kind": "tree_eq_outside_untouched"})
+                           native=nat, shim=shim)
                 return
             for c in comps[len(cache_comps):]:
                 txt = sb.concretise_atoms(c)
@@ -63,6 +69,14 @@ def confined(ctx, key, op, api):
     # a neighbour file and directory next to the cache: must never be touched
     scn.fs_write(ROOT + "/neighbour.txt", b"keep me")
     mark0 = len(scn.env.trace)
+    if op.endswith("_tmp_is_file"):
+        # the cache's tmp/ is unusable (a regular file sits there): a write may fail, but it may not go and
+        # stage its data anywhere else
+        scn.write("seed", b"seed data")
+        scn.fs_remove_dir_all(CACHE + "/tmp")
+        scn.fs_write(CACHE + "/tmp", b"i am a file")
+        op = op[:-len("_tmp_is_file")]
+        tag += ":tmp-is-file"
     if op in ("write", "write_hash", "streamed"):
         mark = len(scn.env.trace)
         if op == "write":
@@ -200,7 +214,7 @@ def tasks(tier, flavours):
     out = []
     keys = HOSTILE_KEYS if tier != "quick" else ["../../x", "/abs", "k\té\n\"\\", "nul\0key"]
     ops = ["write", "write_hash", "streamed", "read", "read_hash", "metadata", "exists", "list", "stream", "copy", "hard_link", "reflink",
-           "copy_over", "hard_link_over", "reflink_over", "remove", "remove_hash", "remove_fully", "remove_then_fully", "clear"]
+           "copy_over", "hard_link_over", "reflink_over", "write_tmp_is_file", "write_hash_tmp_is_file", "streamed_tmp_is_file", "remove", "remove_hash", "remove_fully", "remove_then_fully", "clear"]
     for fl in flavours:
         api = "sync" if fl == "sync" else "async"
         for i, op in enumerate(ops):
